@@ -8,5 +8,15 @@ for f in sorted(glob.glob('/verif/seeded/*/meta.json')):
     need = m['needs_to_manifest'].split('\n')[0].lstrip('# ').replace('|', '/')[:140]
     hs = ", ".join(h.split("::")[-1] for h in m.get('counterexample_harnesses', [])[:3])
     caught = (", ".join(m['caught_by']) + (" (" + hs + ")" if hs else "")) if m['caught_by'] else "**not caught**"
-    hist = "needed strengthening" if m['history'].startswith("MISSED") else ("thorough tier" if "thorough" in m['history'] else "as-is")
+    h = m['history']
+    if h.startswith("NOT CAUGHT"):
+        hist = "not caught: " + ("outside the engine" if "engine" in h else "outside the bounds / feasible region")
+    elif h.startswith("MISSED"):
+        hist = "needed strengthening" + (" (still inconclusive under the change)" if "inconclusive" in h.lower() and not m['caught_by'] else "")
+    elif "thorough" in h and "only" in h:
+        hist = "thorough tier"
+    elif h.startswith("caught as-is by C") or "caught as-is by" in h[:40]:
+        hist = "as-is (by a neighbouring property)"
+    else:
+        hist = "as-is"
     print("| %s | %s | %s | %s | %s |" % (m['id'], m['property'], need, caught, hist))
